@@ -202,7 +202,8 @@ def distribute_events(ob, orf, spec, types, tabs, mt_expected, res_prev=None,
     return ev, np.array(m, float)
 
 
-def previous_results(rng, powers, types, m, Ks, ntime=1, noise=0.03):
+def previous_results(rng, powers, types, m, Ks, ntime=1, noise=0.03,
+                     kfac=None):
     """Synthetic sweep results for flows m, consistent with Q = m cp dT.
     Columns as Orificing._read_dassh_results."""
     rows = []
@@ -212,7 +213,8 @@ def previous_results(rng, powers, types, m, Ks, ntime=1, noise=0.03):
         for i in range(n):
             p = powers[i] * f
             tb = T_IN + p / (CP * m[i])
-            tp = T_IN + Ks[types[i]] * p / m[i] * (1 + noise * rng.uniform(-1, 1))
+            tp = T_IN + Ks[types[i]] * p / m[i] * (1 + noise * rng.uniform(-1, 1)) \
+                * (kfac[i] if kfac else 1.0)
             rows.append([t, i, p, m[i], tb, max(tp, tb)])
     res = np.array(rows, float)
     t_out = float(np.sum(res[:, 4] * res[:, 3]) / np.sum(res[:, 3]))
@@ -310,7 +312,8 @@ def history(args):
             if np.any(m <= 0):
                 info['nonpositive_flow'] = True
             res_prev, t_prev = previous_results(
-                rng, powers, types, m, Ks, ntime=spec.get('ntime', 1))
+                rng, powers, types, m, Ks, ntime=spec.get('ntime', 1),
+                noise=spec.get('noise', 0.03), kfac=spec.get('kfac'))
         return {'label': label, 'ev': ev, 'info': info}
     finally:
         common.cleanup(d)
